@@ -7,6 +7,7 @@ consumer actually requests (observed at the element that range-checks the reques
 update."""
 from . import sched_common as sc
 from . import c01
+from . import announce
 from .. import common
 from ..schedlib import CACHE, layout, model_request, run_impl
 
@@ -108,6 +109,20 @@ def run(ctx, res):
                        "the exact tie-break (first in listing order) is checked by the correspondence with the model"]
     specs = corpus() + [gen(ctx) for _ in range(ctx.n(300, 6000))]
     sc.run_cases(specs, res, [oracle], exclude=c01_known)
+    # the contract the model assumes of a component (announced time = requested time = new time), on the package's own
+    # time-stepped components with fixed and calendar steps
+    res.assumptions.append("model assumption validated on CallbackComponent, DebugConsumer, CsvWriter, TimeTrigger, "
+                           "CallbackGenerator: the announced next time is the time pulled at and moved to (timedelta and "
+                           "relativedelta steps, month-end and leap-day starts)")
+    for _ in range(ctx.n(120, 1500)):
+        c = announce.gen(ctx.rng)
+        impl = announce.run(c)
+        res.case(c, len(impl["log"]) >= 4)
+        res.count("part", "announce/" + c["comp"])
+        res.count("announce_step", c["step"][0])
+        o = announce.oracle(c, impl)
+        if o:
+            res.fail(c, o[0], o[1])
 
 
 def c01_known(spec, impl):
@@ -120,6 +135,13 @@ def c01_known(spec, impl):
 
 def search(ctx, res, divergences, broken):
     specs = [d["case"] for d in divergences if d.get("case")] + [gen(ctx) for _ in range(ctx.n(1500, 20000))]
+    for _ in range(400):
+        c = announce.gen(ctx.rng)
+        o = announce.oracle(c, announce.run(c))
+        res.case(c, True)
+        if o:
+            res.fail(c, o[0], o[1])
+            return
     for s in specs:
         impl = run_impl(s)
         res.case(sc.slim(s), True)
@@ -130,6 +152,9 @@ def search(ctx, res, divergences, broken):
 
 
 def shrink(ctx, f):
+    if f["case"].get("part") == "announce":
+        return f
+
     def still(t):
         impl = run_impl(t, timeout=10)
         return bool(oracle(t, impl))
@@ -142,6 +167,10 @@ def shrink(ctx, f):
 
 def replay(ctx, rp):
     case = rp.get("input") or (rp.get("diverging_case") or {}).get("case")
+    if case.get("part") == "announce":
+        impl = announce.run(case)
+        o = announce.oracle(case, impl)
+        return {"fails": bool(o), "oracle": o, "log": impl["log"]}
     impl = run_impl(case)
     o = oracle(case, impl)
     req, order = model_request(case)
